@@ -1,6 +1,7 @@
 import Rare.Base.Proto
 import Rare.Model.C14Format
 import Rare.Model.C14F64
+import Rare.Model.C14Log
 import Rare.Drv.Expr
 /-!
 Line protocol of property C14 (see `harness/corr/c14.go` for the Go side).
@@ -13,7 +14,7 @@ that the palette indices of the log scalers can be compared exactly, and `scale`
 against an all-native evaluation.  `math.Pow` (heatmap legend of a
 log scale) is not ported: both sides replace that one line by `~`.
 
-Ops: `scale`, `barw`, `stack`, `cell`, `strlen`, `fmtseq`, `hdr`, `tablew`, `histow`, `render histo|histo2|bars|table|heat|spark|reduce`.
+Ops: `scale`, `scalego`, `log`, `barw`, `stack`, `cell`, `strlen`, `fmtseq`, `hdr`, `tablew`, `histow`, `render histo|histo2|bars|table|heat|spark|reduce`.
 -/
 namespace Rare.Drv.C14
 open Rare Rare.C14 Rare.C20 Rare.Proto
@@ -336,6 +337,25 @@ def handle : List String → String
       let n := ans w.toBits.toNat (bucket N 16 w) (bucket N 10 w) (bucket N 9 w) (bucket N 4 w) (lengthVal N 50 w) (lengthVal N 450 w)
       if m = n then m else s!"model-vs-native f64={m} native={n}"
     | _, _, _, _ => "bad-args"
+  | ["scalego", sc, v, mn, mx] =>
+    -- the all-kernel arithmetic: Go's logarithms ported to the software binary64 (`goArith`, Model/C14Log.lean)
+    match scaler? sc, v.toInt?, mn.toInt?, mx.toInt? with
+    | some k, some v, some mn, some mx =>
+      let u := scale goArith k v mn mx
+      s!"ok {u.bits} b16={bucket goArith 16 u}"
+    | _, _, _, _ => "bad-args"
+  | ["log", fn, bits] =>
+    match bits.toNat? with
+    | some b =>
+      let x := fb64 b
+      let y := if fn = "ln" then goLogF x else if fn = "log2" then goLog2F x else goLog10F x
+      -- the native port the renderer ops use must agree with the kernel one on x > 0 finite
+      let nx := toNative x
+      let ny := if fn = "ln" then goLog nx else if fn = "log2" then goLog2 nx else goLog10 nx
+      let shown (z : F64) : String := if z.isNaN then "nan" else toString z.bits
+      if x.isFinite && !x.sign && !x.isZero && shown y != shown (ofNative ny) then s!"model-vs-native f64={shown y} native={shown (ofNative ny)}"
+      else "ok " ++ shown y
+    | none => "bad-args"
   | ["barw", uni, maxLen, sc, v, mn, mx] =>
     match bit uni, maxLen.toInt?, scaler? sc, v.toInt?, mn.toInt?, mx.toInt? with
     | some u, some ml, some k, some v, some mn, some mx =>
